@@ -24,13 +24,15 @@ META = dict(
     outside="more than 2 annotators in the candidate alignment; > 3 unitary alignments",
     stubs=["Segment.__hash__ = constant", "slot contents = symbolic selector over {empty, continuum units, fresh unit}"],
     assumptions=["segments longer than SEGMENT_PRECISION", "units of one annotator listed by increasing start"],
-    cfg_budget_s=dict(quick=240, thorough=1700),
+    cfg_budget_s=dict(quick=240, thorough=900),
 )
 
 
 def configs(tier):
     out = []
     shapes = [((1, 1), 1), ((1, 1), 2), ((2, 1), 1), ((2, 1), 2)]
+    for soft in (False, True):
+        out.append(dict(key=f"{'soft' if soft else 'strict'},sizes=(1, 1),unitary=1,then-continuum-edited-and-re-checked", sizes=[1, 1], k=1, soft=soft, history=True, cost=500))
     if tier == "thorough":
         shapes += [((1, 1), 3), ((2, 2), 1), ((2, 2), 2)]
     for sizes, k in shapes:
@@ -56,6 +58,9 @@ def harness(cfg, ns):
     def h(ctx):
         c, info = common.build_continuum(ns, ctx, sizes, coords="sym", labels="x")
         cunits = [(a, u) for a, u in c]                    # (annotator, Unit) of the continuum
+        if cfg.get("history"):
+            for v in info.values():                        # so that the unit added later is genuinely new
+                ctx.solver.add(v["start"].e >= -64, v["end"].e <= 64)
         inputs = [v[kk] for v in info.values() for kk in ("start", "end")]
         slots = []          # (annotator of the slot, start, end) for non-empty slots
         desc = []
@@ -75,6 +80,8 @@ def harness(cfg, ns):
                 if o == "foreign":
                     st, en = ctx.fresh(f"fs{u}_{a}_"), ctx.fresh(f"fe{u}_{a}_")
                     ctx.solver.add(en.e - st.e > lift(ns.pseg.SEGMENT_PRECISION))
+                    if cfg.get("history"):
+                        ctx.solver.add(st.e >= -64, en.e <= 64)
                     ctx.model = None
                     unit = co.Unit(Segment(st, en), "x")
                     inputs += [st, en]
@@ -95,7 +102,7 @@ def harness(cfg, ns):
                     d.append([x[0], x[1], "fresh", common.frs(mval(m, x[3])), common.frs(mval(m, x[4]))])
                 else:
                     d.append(list(x))
-            return dict(kind="check", soft=soft, sizes=list(sizes), k=k,
+            return dict(kind="check", history=bool(cfg.get("history")), soft=soft, sizes=list(sizes), k=k,
                         units=[[ANN[a], common.frs(mval(m, v["start"])), common.frs(mval(m, v["end"])), "x"] for (a, j), v in sorted(info.items())],
                         slots=d)
         ctx.notes["realize"] = rz
@@ -141,6 +148,23 @@ def harness(cfg, ns):
             for nm, order in (("reversed", list(reversed(uas))), ("rotated", uas[1:] + uas[:1])):
                 obls.append(Obl(f"same-outcome-in-{nm}-order", outcome(order) == res, rz))
         obls.append(Obl("constructor-check_validity==check", outcome(list(uas), via_ctor=True) == res, rz))
+        if not cfg.get("history"):
+            return obls
+        # history: the same alignment object checked again after the continuum gained a unit it does not hold -> must now be rejected
+        Aobj = cls(list(uas), c)
+        try:
+            Aobj.check()
+        except Exception:       # noqa: BLE001
+            pass
+        c.add(ANN[0], Segment(core.const(5000), core.const(5001)), "x")
+        try:
+            Aobj.check()
+            again = "ok"
+        except al.SetPartitionError:
+            again = "SetPartitionError"
+        except Exception as ex:     # noqa: BLE001
+            again = type(ex).__name__
+        obls.append(Obl("re-check after the continuum gained a unit is rejected", again == "SetPartitionError", rz))
         return obls
     return h
 
@@ -194,4 +218,19 @@ def replay(case):
             bad.append("outcome depends on the order of unitary alignments")
     if outcome(list(uas), ctor=True) != res:
         bad.append("constructor check_validity differs from check()")
+    if not case.get("history", True):
+        return dict(reproduced=bool(bad), detail="; ".join(bad[:3]))
+    Aobj = cls(list(uas), c)
+    try:
+        Aobj.check()
+    except Exception:       # noqa: BLE001
+        pass
+    c.add(ANN[0], Segment(5000.0, 5001.0), "x")
+    try:
+        Aobj.check()
+        bad.append("alignment still accepted after the continuum gained a unit it does not hold")
+    except SetPartitionError:
+        pass
+    except Exception as ex:     # noqa: BLE001
+        bad.append(f"re-check raised {type(ex).__name__}")
     return dict(reproduced=bool(bad), detail="; ".join(bad[:3]))
